@@ -95,8 +95,8 @@ def run(ctx):
                     pa.append(q)
                     pb.append(reduce_problem(q, set(fx)))
                     fixed_of[problems.to_line(q)] = (set(fx), n, [hexd(v) for v in q["lb"]])
-        ba = runcheck.run_batch(ctx, bdir, A, pa, [monitors.mon_in_box], "full problems with fixed coordinates")
-        bb = runcheck.run_batch(ctx, bdir, A, pb, [], "hand-reduced problems", replay=False)
+        ba = runcheck.run_batch(ctx, bdir, A, pa, [monitors.mon_in_box], "full problems with fixed coordinates", blame_crash=False)
+        bb = runcheck.run_batch(ctx, bdir, A, pb, [], "hand-reduced problems", replay=False, blame_crash=False)
         runcheck.compare_pairs(ctx, [r for _, r, _ in ba], [r for _, r, _ in bb], relate_factory(fixed_of), "pairs (full | reduced)",
                                {"cause": "fixed-coordinate problem differs from the reduced problem"})
         ctx.sample({"full": ba[0][1].spec, "reduced": bb[0][1].spec})
